@@ -377,7 +377,9 @@ func c08TicketsPart(thorough bool) c08PartSpec {
 		n   int
 		set func(p *wire.TransportParameters, i int) (bool, string)
 	}
-	acl := []uint64{2, 3, 63, 64, 16383, 16384, 1 << 30, 1<<62 - 1}
+	// active_connection_id_limit (rule: >= 2): also 2^w and 2^w + 1 for w in {8,16,32}, legal
+	// values that alias 0 and 1 when the rule is evaluated on a narrowed value
+	acl := []uint64{2, 3, 63, 64, 16383, 16384, 1 << 30, 1<<62 - 1, 1 << 8, 1<<8 + 1, 1 << 16, 1<<16 + 1, 1 << 32, 1<<32 + 1}
 	dgs := []int64{-1, 0, 1, 63, 64, 16383, 16384, 1<<62 - 1}
 	bc := func(get func(p *wire.TransportParameters) *protocol.ByteCount) tf {
 		return tf{len(c08Bnd), func(p *wire.TransportParameters, i int) (bool, string) {
